@@ -217,4 +217,9 @@ def lindbladian(inp):
 
 
 # thorough tier (bounded native sweeps): (function, inputs, obligation of the open finding it reproduces or None)
+def create_delta_spec(inp):
+    from replay.c01 import create_delta_spec as f
+    return f(inp)
+
+
 THOROUGH = [('lindbladian', {}, None), ('superoperator_helpers', {}, None), ('exact_ancilla', {}, None), ('set_after_get', {}, None), ('order_of_environments', {}, 'c03/order-independent[non-commuting-environments]')]
